@@ -199,6 +199,58 @@ def check(model: Model, run: Run) -> None:
     )
     _r7_table(model, run, attrs)
 
+    # ------------------------------------------------------------------ R10
+    run.rule(
+        'C08.R10',
+        'attribute flags error (RFC 7606 3.c): a code that IS registered, met with flag bits that are not, is handled in the '
+        'branch testing the table of every registered code (the one Attribute.register fills unconditionally) - there a '
+        'TREAT_AS_WITHDRAW class adds the marker - and never reaches the unknown-attribute tail (GenericAttribute) of the walk',
+        floor=3,
+    )
+    _r10_flags_error(model, run, parse)
+
+
+def _r10_flags_error(model: Model, run: Run, parse) -> None:
+    from ..alpha import facts
+
+    reg = model.funcs.get('exabgp.bgp.message.update.attribute.attribute.Attribute.register.register_attribute')
+    if reg is None:
+        run.cannot('Attribute.register.register_attribute not found')
+        return
+    run.analysed(reg)
+    # tables every registration appends the code to (no condition)
+    every = set()
+    for st in reg.node.body:
+        if isinstance(st, ast.Expr) and isinstance(st.value, ast.Call) and isinstance(st.value.func, ast.Attribute) and st.value.func.attr == 'append':
+            every.add((dotted(st.value.func.value) or '?').rsplit('.', 1)[-1])
+    if not every:
+        run.cannot('no table is filled unconditionally by Attribute.register')
+        return
+    run.ok('Attribute.register', 'tables holding every registered code: %s' % sorted(every))
+    pl = Loc(model, parse)
+    aid = None
+    for c in model.calls_to(parse.module, parse.node, 'Attribute.registered'):
+        if c.args and isinstance(c.args[0], ast.Name):
+            aid = c.args[0].id
+    if aid is None:
+        run.cannot('the attribute code variable of parse was not identified (Attribute.registered(<code>, <flags>))')
+        return
+    known = {'%s not in Attribute.%s' % (aid, t) for t in every}
+    tails = model.calls_to(parse.module, parse.node, 'GenericAttribute.make_generic', 'GenericAttribute')
+    if not tails:
+        run.cannot('the unknown-attribute tail (GenericAttribute) vanished from parse')
+        return
+    for c in tails:
+        fs = facts(pl, c, keep=[aid])
+        run.check(bool(fs & known), parse.qualname, 'the unknown-attribute tail is reached only for codes outside %s' % sorted(every), parse.loc(c), 'a registered attribute received with the wrong flag bits (MED sent transitive, LARGE_COMMUNITY non-transitive) would be wrapped as an unknown attribute and its route announced instead of treated as withdrawn: %s do not exclude it' % sorted(f for f in fs if aid in f))
+    # the branch itself
+    branch = [n for n in walk_no_nested(parse.node) if isinstance(n, ast.If) and isinstance(n.test, ast.Compare) and isinstance(n.test.ops[0], ast.In) and norm(n.test.left) == aid and (dotted(n.test.comparators[0]) or '').rsplit('.', 1)[-1] in every]
+    if len(branch) != 1:
+        run.violation(parse.qualname, 'flags-error branch: %d tests of `%s in <table of every registered code>`' % (len(branch), aid), parse.loc(), 'the walk must single out registered codes whose flags are wrong')
+        return
+    got = _arm_eval(model, parse, branch[0].body, 'TREAT_AS_WITHDRAW')
+    run.check('add:TreatAsWithdraw' in got and 'raise' not in got, parse.qualname, 'flags error of a treat-as-withdraw class: %s' % got, parse.loc(branch[0]), 'RFC 7606 3.c: attribute flags error is treat-as-withdraw')
+
 
 def _announce_additions_after(model: Model, fi, ifnode: ast.If) -> list[ast.AST]:
     """Statements reachable after the consuming `if` that add to a list flowing into the announces."""
